@@ -110,3 +110,10 @@ claim("C18", "deterministic thread-schedule controller (sys.monitoring LINE yiel
       "rounds cross-check the modelled primitives; B: MPUFileSink.finalise on seeded part lists (sizes incl. 0, any order, relocated parts dir): destination == concatenation, parts and dir gone, "
       "bystander untouched per audit hook; C: all subsets of the four limit keywords reported back, max > min.",
       _TB + " Interleavings are statement-granular; real S3 and multi-process clusters are not available offline.", "DESIGN.md 5/C18")
+
+claim("C13", "differential monitor: xr_reproject on dask-backed data (computed under seeded random topological orders / thread pools) vs the same call on numpy-backed data, with an independent transform classifying destination pixels",
+      "Per case both results must have the same shape/dtype; for same-CRS nearest they must be identical (nearest ties excluded off binary-exact grids); every destination pixel whose centre "
+      "maps > 2 px outside the source must hold the fill value (nodata, else NaN for floats, else 0) in both results - so empty chunks, partially covered chunks and the in-memory path agree "
+      "across seams; disjoint rasters give all-fill without an exception. ~270 cases quick / 5.6e4 thorough over 10 same-CRS kinds + cross-CRS, 1-pixel and non-dividing chunkings, 6 dtypes, "
+      "time axis, nearest/bilinear, ~240 distinct execution orders per quick run.",
+      _TB + " GDAL is shared by both paths.", "DESIGN.md 5/C13")
